@@ -25,6 +25,9 @@ Definition plain (c : char) : bool :=
   negb (can_start_op c || is_blank c || mem c quoting_chars || mem c extglob_start_chars
         || (c =? 36) || (c =? 96) || (c =? 35) || (c =? 0)).
 
+(** what the model needs of a word character: it neither starts an operator nor is a blank *)
+Definition wordchar (c : char) : bool := negb (can_start_op c || is_blank c).
+
 Inductive lexeme := LWord (w : str) | LOp (o : str) | LIoNum (n : str).
 Inductive tstate := SNone | SWord (w : str) | SOp (o : str).
 
@@ -84,7 +87,7 @@ Definition pend (a : atom) : option lexeme :=
 Definition heredoc_op (o : str) : bool := str_eqb o [60; 60] || str_eqb o [60; 60; 45].
 Definition lex_ok (x : lexeme) : bool :=
   match x with
-  | LWord w => negb (is_nil w) && forallb plain w
+  | LWord w => negb (is_nil w) && forallb wordchar w
   | LIoNum n => all_digits n
   | LOp o => is_operator o && negb (heredoc_op o)
   end.
@@ -128,7 +131,7 @@ Proof. vm_compute. reflexivity. Qed.
 (** nothing extends the newline operator *)
 Lemma nl_inert_table : forallb (fun o => negb (starts_with [10] o && negb (str_eqb o [10]))) operators = true.
 Proof. vm_compute. reflexivity. Qed.
-Lemma digits_plain : forallb plain [48;49;50;51;52;53;54;55;56;57] = true.
+Lemma digits_plain : forallb wordchar [48;49;50;51;52;53;54;55;56;57] = true.
 Proof. vm_compute. reflexivity. Qed.
 Lemma blank32 : is_blank 32 = true /\ can_start_op 32 = false /\ can_start_op 10 = true.
 Proof. vm_compute. repeat split; reflexivity. Qed.
@@ -150,14 +153,19 @@ Proof.
   destruct (run st1 s2) as [o2 st2]. rewrite app_assoc. reflexivity.
 Qed.
 
-Lemma plain_not_special c : plain c = true -> can_start_op c = false /\ is_blank c = false.
+Lemma plain_not_special c : wordchar c = true -> can_start_op c = false /\ is_blank c = false.
 Proof.
-  unfold plain. intros H. apply negb_true_iff in H.
-  do 6 (apply orb_false_iff in H; destruct H as [H _]).
-  apply orb_false_iff in H. exact H.
+  unfold wordchar. intros H. apply negb_true_iff in H. apply orb_false_iff in H. exact H.
 Qed.
 
-Lemma run_word_ext u w : forallb plain w = true -> run (SWord u) w = ([], SWord (u ++ w)).
+Lemma plain_wordchar c : plain c = true -> wordchar c = true.
+Proof.
+  unfold plain, wordchar. intros H. apply negb_true_iff in H.
+  do 6 (apply orb_false_iff in H; destruct H as [H _]).
+  rewrite H. reflexivity.
+Qed.
+
+Lemma run_word_ext u w : forallb wordchar w = true -> run (SWord u) w = ([], SWord (u ++ w)).
 Proof.
   revert u. induction w as [|c r IH]; intros u H.
   - rewrite app_nil_r. reflexivity.
@@ -166,7 +174,7 @@ Proof.
     cbn [run step]. rewrite H1, H2, (IH _ Hr), <- app_assoc. reflexivity.
 Qed.
 
-Lemma run_word_none w : negb (is_nil w) = true -> forallb plain w = true -> run SNone w = ([], SWord w).
+Lemma run_word_none w : negb (is_nil w) = true -> forallb wordchar w = true -> run SNone w = ([], SWord w).
 Proof.
   destruct w as [|c r]; [discriminate|]. intros _ H.
   cbn [forallb] in H. apply andb_true_iff in H. destruct H as [Hc Hr].
@@ -196,7 +204,7 @@ Proof.
   exists c, r. split; [reflexivity | exact H1].
 Qed.
 
-Lemma all_digits_plain n : all_digits n = true -> negb (is_nil n) = true /\ forallb plain n = true.
+Lemma all_digits_plain n : all_digits n = true -> negb (is_nil n) = true /\ forallb wordchar n = true.
 Proof.
   unfold all_digits. intros H. apply andb_true_iff in H. destruct H as [Hd Hn]. split; [exact Hn|].
   clear Hn. induction n as [|c r IH]; [reflexivity|].
@@ -209,7 +217,7 @@ Proof.
 Qed.
 
 Lemma lex_word_like x :
-  lex_ok x = true -> match x with LOp _ => True | _ => negb (is_nil (text x)) = true /\ forallb plain (text x) = true end.
+  lex_ok x = true -> match x with LOp _ => True | _ => negb (is_nil (text x)) = true /\ forallb wordchar (text x) = true end.
 Proof.
   destruct x as [w|o|n]; cbn [lex_ok text]; intros H; [|exact I|].
   - apply andb_true_iff in H. exact H.
